@@ -69,15 +69,19 @@ package segread
 //@   loop 1:
 //@     invariant oPtr == 10 + uint32(i) && i <= numValidRecs && numValidRecs <= numRecs && int(numRecs) <= len(bufToUse) && int(numValidRecs) <= len(rawRec) - 10 && len(rawRec) >= 10
 //@     invariant forall(k, 0, int(i), bufToUse[k] == uint64(rawRec[10+k]) + lowTs)
+//@     decreases int(numValidRecs) - int(i)
 //@   loop 2:
 //@     invariant oPtr == 10 + 2*uint32(i) && i <= numValidRecs && numValidRecs <= numRecs && int(numRecs) <= len(bufToUse) && 2*int(numValidRecs) <= len(rawRec) - 10 && len(rawRec) >= 10
 //@     invariant forall(k, 0, int(i), bufToUse[k] == uint64(le16(rawRec[10+2*k:])) + lowTs)
+//@     decreases int(numValidRecs) - int(i)
 //@   loop 3:
 //@     invariant oPtr == 10 + 4*uint32(i) && i <= numValidRecs && numValidRecs <= numRecs && int(numRecs) <= len(bufToUse) && 4*int(numValidRecs) <= len(rawRec) - 10 && len(rawRec) >= 10
 //@     invariant forall(k, 0, int(i), bufToUse[k] == uint64(le32(rawRec[10+4*k:])) + lowTs)
+//@     decreases int(numValidRecs) - int(i)
 //@   loop 4:
 //@     invariant oPtr == 10 + 8*uint32(i) && i <= numValidRecs && numValidRecs <= numRecs && int(numRecs) <= len(bufToUse) && 8*int(numValidRecs) <= len(rawRec) - 10 && len(rawRec) >= 10
 //@     invariant forall(k, 0, int(i), bufToUse[k] == le64(rawRec[10+8*k:]) + lowTs)
+//@     decreases int(numValidRecs) - int(i)
 //@ end
 
 // C02 (a filter selects exactly the satisfying events, whatever the block
